@@ -137,6 +137,7 @@ def facts_path(config, repo=REPO):
         # tera facts produced as a dependency of contrib are not kept (different feature set)
         os.replace(produced, final)
         shutil.rmtree(tmp_out, ignore_errors=True)
+        prune_cache(os.path.join(CACHE, "facts"), keep=24)
         return final
     finally:
         fcntl.flock(lock, fcntl.LOCK_UN)
@@ -145,6 +146,17 @@ def facts_path(config, repo=REPO):
 
 class ExtractionFailed(Exception):
     pass
+
+
+def prune_cache(d, keep):
+    """keep the `keep` most recently used fact directories (scratch-tree analyses would otherwise pile up)"""
+    try:
+        ents = [(os.path.getmtime(os.path.join(d, e)), e) for e in os.listdir(d)]
+        ents.sort(reverse=True)
+        for _, e in ents[keep:]:
+            shutil.rmtree(os.path.join(d, e), ignore_errors=True)
+    except OSError:
+        pass
 
 
 _crate_cache = {}
